@@ -238,7 +238,7 @@ def sympy_to_ir(e, env):
     if e.is_Mul:
         num, den = ir.ONE, None
         for a in e.args:
-            if a.is_Pow and a.exp.is_Integer and a.exp.is_negative and abs(int(a.exp)) > 16:
+            if a.is_Pow and a.exp.is_Integer and a.exp.is_negative and abs(int(a.exp)) > 48:
                 num = ir.mul(num, ir.powi(sympy_to_ir(a.base, env), int(a.exp)))
             elif a.is_Pow and a.exp.is_Rational and a.exp.is_negative:
                 t = sympy_to_ir(sp.Pow(a.base, -a.exp), env)
@@ -251,7 +251,7 @@ def sympy_to_ir(e, env):
         if ex.is_Integer:
             n = int(ex)
             bt = sympy_to_ir(b, env)
-            if n >= 0 or n < -16:
+            if n >= 0 or n < -48:
                 return ir.powi(bt, n)
             return ir.div(ir.ONE, ir.powi(bt, -n))
         if ex.is_Rational:
